@@ -71,6 +71,10 @@ class Topology:
             self.ports[("socks4", "auth")] = port
             ls.append({"name": "socks_auth_direct", "type": "socks", "bind": "127.0.0.1:%d" % port,
                        "auth": {"required": True, "users": [{"username": "alice", "password": "secret"}]}})
+            # a SOCKS listener that ties the UDP relay to the client address named in the request
+            port = bb.free_port()
+            self.ports[("socks5", "enforce")] = port
+            ls.append({"name": "socks_enforce_direct", "type": "socks", "bind": "127.0.0.1:%d" % port, "enforceUdpClient": True})
         conns = [{"name": "direct"},
                  {"name": "uphttp", "type": "http", "server": "127.0.0.1", "port": self.p2_http},
                  {"name": "upsocks5", "type": "socks", "server": "127.0.0.1", "port": self.p2_socks, "version": 5},
